@@ -13,6 +13,8 @@ From AV Require Import Base.ITree Model.D00 Model.D01 Model.D04 Model.D06 Model.
 From AV Require Import Base.ITree Model.D00 Model.D01 Model.D04 Model.D06 Model.D07 Model.D14.
 From AV Require Import Model.D18.
 From AV Require Import Model.D16.
+From AV Require Import Base.ITree Model.D00 Model.D01 Model.D06.
+From AV Require Import Model.D10.
 Import ListNotations.
 
 Definition dispatch (prop op : nat) (t : itree) : itree :=
@@ -33,5 +35,7 @@ Definition dispatch (prop op : nat) (t : itree) : itree :=
   | 14 => d14 op t
   | 18 => d18 op t
   | 16 => d16 op t
+  | 10 => d10 op t              (* C10 and C11 share the regex ops *)
+  | 11 => d10 op t
   | _ => bad_input
   end.
